@@ -364,6 +364,8 @@ func (a syAct) coq() string {
 		return "SS2C"
 	case 'X':
 		return "SFailRead"
+	case 'T':
+		return fmt.Sprintf("STick %d", a.N)
 	case 'B':
 		return "SBlockWrites true"
 	case 'b':
@@ -398,7 +400,8 @@ type syRig struct {
 	threads  []*syThread
 	streams  map[int]grpc.ClientStream
 	nextC    int64
-	dumpWait bool // quiescence by goroutine dumps only (a concurrent handler may leave a goroutine waiting for a mutex)
+	rmsgs    map[int64]*wrapperspb.BytesValue // the caller's message object of each stream
+	dumpWait bool                             // quiescence by goroutine dumps only (a concurrent handler may leave a goroutine waiting for a mutex)
 	armed    map[string]*syThread
 	yieldF   func(pt string) // free-running yield policy
 	active   atomic.Int64    // stream handlers entered and not yet returned
@@ -428,7 +431,7 @@ func newSyRig(topo int, byRef, lock bool) *syRig { return newSyRigOpt(topo, byRe
 // checkCtx: the client's transport tests the context of a Write first (as the pipe / demux style transports do)
 func newSyRigOpt(topo int, byRef, lock, checkCtx bool) *syRig {
 	r := &syRig{hist: &syHist{}, lock: lock, topo: topo, ugates: map[int64]*syGate{}, sgates: map[int64]*syGate{},
-		hprogs: map[int64]syHProg{}, streams: map[int]grpc.ClientStream{}, armed: map[string]*syThread{}}
+		hprogs: map[int64]syHProg{}, rmsgs: map[int64]*wrapperspb.BytesValue{}, streams: map[int]grpc.ClientStream{}, armed: map[string]*syThread{}}
 	r.ctx, r.cancel = context.WithCancel(context.Background())
 	srv := goat.NewServer("srv")
 	for _, sd := range syServiceDescs() {
@@ -470,9 +473,40 @@ func newSyRigOpt(topo int, byRef, lock, checkCtx bool) *syRig {
 		r.stops = append(r.stops, d.Stop)
 	}
 	r.stops = append(r.stops, srv.Stop)
-	r.cc = goat.NewClientConn(l.C, "c1", "srv")
+	var crw goat.RpcReadWriter = l.C
+	if topo == 3 {
+		// zero slack, by reference: goat's own channel transport over UNBUFFERED channels (a Write returns when the peer
+		// has read); free-running only; the tap records what the client writes and what it reads
+		c2s, s2c := make(chan *Rpc), make(chan *Rpc)
+		crw = &syTapRW{inner: goat.NewGoatOverChannel(s2c, c2s), r: r}
+		go srv.Serve(r.ctx, goat.NewGoatOverChannel(c2s, s2c))
+	}
+	r.cc = goat.NewClientConn(crw, "c1", "srv")
 	verifhook.SetYield(r.onYield)
 	return r
+}
+
+// syTapRW: the client's end of the rendezvous topology
+type syTapRW struct {
+	inner goat.RpcReadWriter
+	r     *syRig
+}
+
+func (t *syTapRW) Write(ctx context.Context, e *Rpc) error {
+	t.r.hist.add("WC2S " + syWenv(e))
+	return t.inner.Write(ctx, e)
+}
+
+func (t *syTapRW) Read(ctx context.Context) (*Rpc, error) {
+	ctx2, cancel := context.WithCancel(ctx)
+	stop := context.AfterFunc(t.r.ctx, cancel) // the end of the scenario ends the client's read loop
+	defer stop()
+	defer cancel()
+	e, err := t.inner.Read(ctx2)
+	if err == nil {
+		t.r.hist.add("WS2C " + syWenv(e))
+	}
+	return e, err
 }
 
 // close ends the scenario: everything still blocked is released or cancelled.
@@ -583,14 +617,14 @@ func (r *syRig) streamH(si int, s grpc.ServerStream) error {
 		r.hist.add(fmt.Sprintf("HRet %d %d", k, 98))
 		return status.Error(codes.Code(98), "wrong handler")
 	}
+	hm := syUsedReply() // the handler receives every message into this one object
 	recv := func() ([]byte, error) {
 		r.gate(r.sgates, k)
 		r.hist.add(fmt.Sprintf("HRecvS %d", k))
-		var m wrapperspb.BytesValue
-		err := s.RecvMsg(&m)
-		r.hist.add(fmt.Sprintf("HRecvR %d %s", k, syRes(err, m.Value)))
+		err := s.RecvMsg(hm)
+		r.hist.add(fmt.Sprintf("HRecvR %d %s", k, syRes(err, hm.Value)))
 		r.hrecvs.Add(1)
-		return m.Value, err
+		return append([]byte(nil), hm.Value...), err
 	}
 	send := func(b []byte) error {
 		r.gate(r.sgates, k)
@@ -622,9 +656,8 @@ func (r *syRig) streamH(si int, s grpc.ServerStream) error {
 					return // the handler function has returned: the stream must not be used any more
 				}
 				r.hist.add(fmt.Sprintf("HRecvS %d", k))
-				var m wrapperspb.BytesValue
-				err := s.RecvMsg(&m)
-				r.hist.add(fmt.Sprintf("HRecvR %d %s", k, syRes(err, m.Value)))
+				err := s.RecvMsg(hm)
+				r.hist.add(fmt.Sprintf("HRecvR %d %s", k, syRes(err, hm.Value)))
 				r.hrecvs.Add(1)
 				if err != nil {
 					return
@@ -756,8 +789,16 @@ func (r *syRig) send(cs grpc.ClientStream, k int64, b []byte) error {
 
 func (r *syRig) recv(cs grpc.ClientStream, k int64) error {
 	r.hist.add(fmt.Sprintf("CRecvS %d", k))
-	var m wrapperspb.BytesValue
-	err := cs.RecvMsg(&m)
+	// one message object per stream, reused by every RecvMsg and pre-populated: RecvMsg must overwrite it completely,
+	// also with an empty message
+	r.mu.Lock()
+	m := r.rmsgs[k]
+	if m == nil {
+		m = syUsedReply()
+		r.rmsgs[k] = m
+	}
+	r.mu.Unlock()
+	err := cs.RecvMsg(m)
 	r.hist.add(fmt.Sprintf("CRecvR %d %s", k, syRes(err, m.Value)))
 	return err
 }
@@ -955,6 +996,8 @@ func (r *syRig) do(a syAct) {
 		r.link.StepC2S()
 	case 'S':
 		r.link.StepS2C()
+	case 'T': // the virtual clock advances (the scheduler sleeps: everything else is durably blocked, timers fire)
+		time.Sleep(time.Duration(a.N) * time.Millisecond)
 	case 'X': // the client's transport fails (after what it has queued)
 		r.link.C.FailRead(errInjected)
 	case 'B': // the client's transport stops accepting writes (back-pressure)
@@ -1074,7 +1117,10 @@ func (r *syRig) runSchedule(choose func(step int, en []syAct) int, maxSteps int)
 		if i == -1 {
 			break
 		}
-		if i < -1 { // an environment action that is always enabled: -2 read failure, -3 / -4 block / unblock writes
+		if i <= -5 { // the virtual clock advances: -5 six seconds, -6 one minute, -7 one hour
+			en = []syAct{{'T', map[int]int64{-5: 6000, -6: 60000, -7: 3600000}[i]}}
+			i = 0
+		} else if i < -1 { // an environment action that is always enabled: -2 read failure, -3 / -4 block / unblock writes
 			en = []syAct{{map[int]byte{-2: 'X', -3: 'B', -4: 'b'}[i], 0}}
 			i = 0
 		}
